@@ -314,7 +314,7 @@ func (p cprog) expectedLarge() string {
 			default:
 				continue
 			}
-			per[p.Plan.Sid[op.K]] = append(per[p.Plan.Sid[op.K]], fmt.Sprintf("%d:user%d", uids[t][i], op.K))
+			per[p.Plan.Sid[op.K]] = append(per[p.Plan.Sid[op.K]], fmt.Sprintf("%d:user%d", uids[t][i], userIdx(op.K, p.Plan.Pid[op.K])))
 			if op.Kind == opCD {
 				ended[op.K] = true
 			}
